@@ -657,8 +657,10 @@ def cases(tier, rng):
     for c in history_cases(tier, rng):
         yield c
     # 5. every argument string up to length 4 through every spelling
-    for a in argstrings(4):
+    for a in list(argstrings(4)) + ['{{{{{', '[{{{{', '[{{{{{', '{{{{{{', '[{{{{{{']:
         sps = spellings_for(a)
+        if len(a) > 4:
+            sps = [sp for sp in sps if sp[0] in ('O', 'S')]      # longer signatures: the (optarg, numargs) spelling
         for t in arg_inputs(rng, a, 6 if quick else 40):
             for wrap in (False, True):
                 s = ('{\\q' + t + '}x') if wrap else ('\\q' + t)
